@@ -107,7 +107,7 @@ def _c07(prop, tier, replay_path):
     if replay_path:
         with open(replay_path) as fh:
             kind = json.load(fh).get("kind")
-        if kind == "rsim":
+        if kind in ("rsim", "xsim"):
             return raftfamily.check(prop, tier, replay_path)
         if kind == "TestVerifNhsim":
             return nhfamily.check_c07_nodes(prop, tier, replay_path)
